@@ -191,6 +191,8 @@ def run_scheduled(ctx, case, extra_check=None, chooser=None, account=True, after
     Wt.no_barrier = True
     twin_cls = PS.build_class(prog, None, Wt, decorated=False)
     twin_outcome = PS.execute(twin_cls, prog)
+    for th in Wt.detached:
+        th.join()
     PS.forget_class(twin_cls)
     sched = DS.Scheduler(('tape_recorder.py',), max_steps=40000)
     DS.install(sched)
@@ -279,8 +281,9 @@ def run_scheduled(ctx, case, extra_check=None, chooser=None, account=True, after
     return sched
 
 
-def tiny_threaded(behs):
-    """Two workers, one intercepted input call each, with the given body behaviours."""
+def tiny_threaded(behs, detach=False):
+    """Two workers, one intercepted input call each, with the given body behaviours (detach: the operation does not
+    wait for them and goes on with one output call of its own)."""
     decl = {'alias': 'in', 'kind': 'instance', 'resolver': False, 'capture': 'all', 'handler': 'none'}
     out = {'alias': 'out', 'kind': 'instance', 'handler': 'none'}
 
@@ -290,8 +293,12 @@ def tiny_threaded(behs):
         return {'t': 'in', 'i': 0, 'a': n, 'b': 0, 'usekw': False, 'beh': b, 'ret': n, 'name': 'n1', 'exc': 'Err'}
     prog = {'klass': 'instance', 'ins': [decl], 'outs': [out], 'ending': 'return', 'result': None, 'extractor': 'none',
             'steps': [{'t': 'threads', 'workers': [[step(b, n)] for n, b in enumerate(behs)]}]}
+    if detach:
+        prog['steps'][0]['detach'] = True
+        prog['steps'].append(step('out', 9))
     return {'prog': PS.assign_sids(prog), 'faults': [], 'enabled': True, 'params': None, 'threaded': True,
-            'how': 'dfs:' + '+'.join(behs), 'scheduled': True, 'sched': {'mode': 'dfs'}}
+            'how': 'dfs:' + '+'.join(behs) + (':detached' if detach else ''), 'scheduled': True,
+            'sched': {'mode': 'dfs'}}
 
 
 def dfs_scheduled(ctx, behs, bound, extra_check=None):
